@@ -499,4 +499,368 @@ class ReRegEngine(Engine):
     return {'obs': obs, 'fails': fails[:3], 'nontrivial': nontrivial, 'tags': tags}
 
 
-ENGINES = [LockEngine(), ReRegEngine()]
+# ---------------------------------------------------------------- registering a class that owns gin-registered methods
+MREG_MOD = 'lkm'
+MREG_SRC = '''
+import gin
+def fn0(a=0, b=0):
+  return ("fn0", a, b)
+class K0(object):
+  def __init__(self, a=0, b=0):
+    self.got = ("K0", a, b)
+  @gin.register
+  def m(self, x=0, y=0):
+    return ("K0.m", x, y)
+  @gin.register(denylist=['y'])
+  def n(self, x=0, y=0):
+    return ("K0.n", x, y)
+class K1(object):
+  def __init__(self, a=0, b=0):
+    self.got = ("K1", a, b)
+  @gin.register
+  def p(self, x=0, y=0):
+    return ("K1.p", x, y)
+  @staticmethod
+  @gin.register
+  def s(x=0, y=0):
+    return ("K1.s", x, y)
+  def plain(self, x=0):
+    return ("K1.plain", x)
+class K2(object):
+  def __init__(self, a=0, b=0):
+    self.got = ("K2", a, b)
+  def plain(self, x=0):
+    return ("K2.plain", x)
+class K3(K0):
+  @gin.register
+  def q(self, x=0, y=0):
+    return ("K3.q", x, y)
+'''
+MREG_OBJS = ['fn0', 'K0', 'K1', 'K2', 'K3']
+MREG_METHODS = {'K0': ['m', 'n'], 'K1': ['p', 's'], 'K2': [], 'K3': ['m', 'n', 'q']}      # gin-registered, own or inherited
+MREG_OWN = [MREG_MOD + '.' + o for o in MREG_OBJS]      # the selector each object gets by default
+MREG_SELS = MREG_OWN + ['q.Z']                          # selectors a registration may ask for
+MREG_FORMS = ('external', 'register', 'dynamic')
+MREG_HEADER = 'from __gin__ import dynamic_registration\nimport %s\n' % MREG_MOD
+
+
+def _mreg_method_sels():
+  """every spelling under which a registered method may be known: the provisional module-level selector it has before its
+  class is registered, and the class-level selector under each selector its class (or a subclass) may be registered with"""
+  out = []
+  for meth in ['m', 'n', 'p', 's', 'q']:
+    owners = [k for k in MREG_OBJS[1:] if meth in MREG_METHODS[k]]
+    out += [(meth, owners[0]), (MREG_MOD + '.' + meth, owners[0])]
+    for k in owners:
+      out += [('%s.%s' % (k, meth), k), ('%s.%s.%s' % (MREG_MOD, k, meth), k)]
+    out += [('Z.' + meth, owners[0]), ('q.Z.' + meth, owners[0])]
+  return out
+
+
+MREG_METHOD_SELS = _mreg_method_sels()
+MREG_CLASS_SELS = MREG_OWN + ['q.Z'] + MREG_OBJS
+MREG_BIND_KEYS = ([s + '.' + p for s, _ in MREG_METHOD_SELS for p in ('x', 'y')] +
+                  [s + '.' + p for s in MREG_CLASS_SELS for p in ('a', 'b')])
+
+
+class MethodRegEngine(Engine):
+  """Lock x method registration.  A class whose body holds @gin.register'ed methods: the methods are registered while the class
+  body runs, i.e. before the class, under a provisional module-level selector (lkm.m), and bindings can be made under that
+  selector (m.x = 5).  Registering the class afterwards (external_configurable / register / dynamic registration from a
+  config text) moves the methods -- and their bindings -- under the class selector (lkm.K0.m).  gin-lock and
+  locked-reregistration only register plain functions and a method-less class.  Here the histories register such classes
+  (also a subclass inheriting registered methods, a class with a registered static method, a method-less class and a
+  function) around finalize / unlock_config / interactive_mode / clear_config.  Implementation only; the predicate is the one
+  of locked-reregistration, written from the property text, with a wider observation: (1) the lock is the automaton of
+  the text; (2) a registration attempted while it is locked raises; (3) it changes nothing: config_str,
+  operative_config_str, get_bindings under every spelling of every method and class selector, the callable behind each of
+  them and the values it receives (methods of instances built through the class selectors included) are the same right
+  before and right after the attempt, and the same history with those attempts left out is indistinguishable: same outcome
+  of every other operation, same final observation, same parameters that can be bound afterwards; (4) a bind attempted
+  while locked raises."""
+  name = 'locked-method-registration'
+  model = False
+  rule = ('lock/method registration: histories of 2-12 ops over finalize, unlock_config and interactive_mode blocks (nested, '
+          'body raising or not), clear, bind / parse of a binding under any spelling of a method or class selector '
+          '(provisional module-level or class-level), and registrations (external_configurable, register, dynamic '
+          'registration from a config text; own or foreign selector, allow/denylists) of a function, two classes owning '
+          '@gin.register\'ed methods (one static), a subclass inheriting them and a method-less class; every registration on '
+          'a locked config raises and is unobservable (config_str, operative_config_str, get_bindings and the callable behind '
+          'every selector spelling before/after the attempt; erasing the attempts from the history changes no outcome, no '
+          'final observation, no bindable parameter). non-trivial = a class owning registered methods that is not registered '
+          'yet is registered on a locked config while one of its methods has a binding.')
+
+  def budget(self, tier):
+    return 120 if tier == 'quick' else 4000
+
+  @staticmethod
+  def reg(obj, sel=None, form='external', allow=(), deny=()):
+    return ['reg', obj, obj if sel is None else sel, form, list(allow), list(deny)]
+
+  def corpus(self):
+    R = self.reg
+    return [
+        # a binding under the provisional selector of a method, then its class registered on the locked config (2 APIs)
+        {'dyn': False, 'ops': [['bind', 'm.x', 5], ['finalize'], R(1), R(1, form='register'), ['unlock', [['bind', 'm.x', 6]]]]},
+        # the same through dynamic registration (a config text naming the class), the import header being recorded already;
+        # a subclass inheriting the methods; a foreign selector; the registration accepted later inside an unlock block
+        {'dyn': True, 'ops': [['bind', 'lkm.n.x', 2], ['bind', 'p.y', 3, 'parse'], ['finalize'], R(1, form='dynamic'),
+                              R(4, form='register'), R(2, 5), ['unlock', [R(2, 5), ['raise']]], R(1, form='dynamic'),
+                              ['bind', 'q.Z.p.x', 4]]},
+        # a static method; registered, cleared, locked again; interactive mode on a locked config
+        {'dyn': False, 'ops': [R(0), ['bind', 's.x', 1], ['bind', 'q.y', 2], ['finalize'], ['interactive', [R(2, 1)]],
+                               ['unlock', [R(4)]], R(2, deny=['a']), ['clear'], ['bind', 'K1.s.x', 3], ['bind', 's.y', 4],
+                               ['finalize'], R(2, form='register', allow=['a']), R(3), R(1)]},
+    ]
+
+  def gen_ops(self, rng, depth, n, dyn):
+    ops = []
+    for _ in range(n):
+      r = rng.random()
+      if r < 0.22:
+        ops.append(['finalize'])
+      elif r < 0.52:
+        obj = rng.choice([0, 1, 1, 2, 2, 3, 4])
+        sel = obj if rng.random() < 0.75 else rng.randrange(len(MREG_SELS))
+        form = rng.choice(MREG_FORMS if dyn else MREG_FORMS[:2])
+        allow, deny = [], []
+        x = rng.random()
+        if x < 0.15:
+          deny = rng.sample(['a', 'b'], rng.randint(1, 2))
+        elif x < 0.25:
+          allow = rng.sample(['a', 'b'], rng.randint(1, 2))
+        ops.append(self.reg(obj, sel, form, allow, deny))
+      elif r < 0.64 and depth < 2:
+        body = self.gen_ops(rng, depth + 1, rng.randint(1, 3), dyn)
+        if rng.random() < 0.3:
+          body.insert(rng.randint(0, len(body)), ['raise'])
+        ops.append(['unlock', body])
+      elif r < 0.72 and depth < 2:
+        ops.append(['interactive', self.gen_ops(rng, depth + 1, rng.randint(1, 2), dyn)])
+      elif r < 0.76:
+        ops.append(['clear'])
+      else:
+        ops.append(self.gen_bind(rng))
+    return ops
+
+  @staticmethod
+  def gen_bind(rng):
+    if rng.random() < 0.75:
+      sel, _ = rng.choice(MREG_METHOD_SELS)
+      if rng.random() < 0.5:
+        sel = rng.choice(['', MREG_MOD + '.']) + rng.choice(['m', 'n', 'p', 's', 'q'])   # a provisional spelling
+      key = sel + '.' + rng.choice(['x', 'x', 'y'])
+    else:
+      key = rng.choice(MREG_CLASS_SELS) + '.' + rng.choice(['a', 'b'])
+    op = ['bind', key, rng.randint(1, 9)]
+    if rng.random() < 0.25:
+      op.append('parse')
+    return op
+
+  def gen(self, rng, tier):
+    dyn = rng.random() < 0.4
+    # bindings under the provisional selectors first: that is what a later class registration has to move (or not touch)
+    ops = [self.gen_bind(rng) for _ in range(rng.randint(0, 2))]
+    if rng.random() < 0.5:
+      # ... and the lock taken early, while most classes are not registered yet
+      ops += self.gen_ops(rng, 0, rng.randint(0, 1), dyn) + [['finalize']]
+    return {'dyn': dyn, 'ops': ops + self.gen_ops(rng, 0, rng.randint(2, 9), dyn)}
+
+  def shrink(self, case):
+    for ops in ginm.shrink_ops(case['ops']):
+      yield {'dyn': case['dyn'], 'ops': ops}
+
+  # -- one run on a fresh gin; `erase`: leave out the registrations attempted while the automaton says locked
+  def run(self, case, erase):
+    import sys    # pylint: disable=g-import-not-at-top
+    import types  # pylint: disable=g-import-not-at-top
+    gin = C.fresh_gin()
+    mod = types.ModuleType(MREG_MOD)
+    sys.modules[MREG_MOD] = mod
+    exec(MREG_SRC, mod.__dict__)  # pylint: disable=exec-used
+    pool = [getattr(mod, o) for o in MREG_OBJS]
+    if case.get('dyn'):
+      gin.parse_config(MREG_HEADER)    # the imports are known (and shown by config_str) before anything is locked
+    st = {'locked': False}            # the automaton of the property text
+    events, attempts, flag_fails = [], [], []
+    registered = set()                # objects whose registration was accepted (clear_config does not unregister)
+
+    def norm(v):
+      if isinstance(v, (tuple, list)):
+        return [norm(x) for x in v]
+      if isinstance(v, (int, str, bool)) or v is None:
+        return v
+      if hasattr(v, 'got'):
+        return ['obj', norm(v.got)]
+      return '<%s>' % type(v).__name__
+
+    def attempt(f):
+      try:
+        return norm(f())
+      except Exception as e:  # pylint: disable=broad-except
+        return 'raised ' + type(e).__name__
+
+    def probe():
+      out = []
+      for sel, owner in MREG_METHOD_SELS:
+        out.append([sel, attempt(lambda: sorted(gin.get_bindings(sel).items())),
+                    attempt(lambda: gin.get_configurable(sel)(*(() if sel.endswith('.s') or sel == 's' else (getattr(mod, owner)(),))))])
+      for sel in MREG_CLASS_SELS:
+        row = [sel, attempt(lambda: sorted(gin.get_bindings(sel).items()))]
+        try:
+          inst = gin.get_configurable(sel)()
+          row.append(norm(inst))
+          for meth in ('m', 'n', 'p', 's', 'q', 'plain'):
+            if hasattr(inst, meth):
+              row.append([meth, attempt(getattr(inst, meth))])
+        except Exception as e:  # pylint: disable=broad-except
+          row.append('raised ' + type(e).__name__)
+        out.append(row)
+      return out
+
+    def snapshot():
+      cs = attempt(gin.config_str)
+      pr = probe()
+      return {'config_str': cs, 'probe': pr, 'config_str_after_probe': attempt(gin.config_str),
+              'operative_config_str': attempt(gin.operative_config_str)}
+
+    def do_reg(op):
+      _, obj, sel, form, allow, deny = op
+      module, _, name = MREG_SELS[sel].rpartition('.')
+      kw = dict(module=module, allowlist=allow or None, denylist=deny or None)
+      if form == 'external':
+        gin.external_configurable(pool[obj], name, **kw)
+      elif form == 'register':
+        gin.register(name, **kw)(pool[obj])
+      elif form == 'configurable':
+        gin.configurable(name, **kw)(pool[obj])
+      else:
+        # a config text that names the object: a reference for a class, a binding for the function
+        gin.parse_config(MREG_HEADER + ('%s.fn0.a = 1\n' % MREG_MOD if obj == 0 else
+                                        '%s.fn0.b = @%s.%s()\n' % (MREG_MOD, MREG_MOD, MREG_OBJS[obj])))
+
+    def step(op, path):
+      k = op[0]
+      if k == 'reg' and st['locked']:
+        # the program catches what the attempt raises and goes on (so that leaving the attempt out leaves the rest as it is)
+        before = snapshot()
+        exc = None
+        if not erase:
+          try:
+            do_reg(op)
+          except Exception as e:  # pylint: disable=broad-except
+            exc = type(e).__name__
+        after = snapshot()
+        owned = MREG_METHODS.get(MREG_OBJS[op[1]], [])
+        bound = any(isinstance(b, list) and b for s, b, _ in before['probe'][:len(MREG_METHOD_SELS)]
+                    if s.rpartition('.')[2] in owned)
+        attempts.append({'at': path, 'op': op, 'exc': exc, 'flag_after': bool(gin.config_is_locked()),
+                         'changed': [key for key in before if before[key] != after[key]],
+                         'before': before, 'after': after,
+                         'nontrivial': bool(owned) and op[1] not in registered and bound})
+        return
+      exc = None
+      try:
+        if k == 'reg':
+          do_reg(op)
+          registered.add(op[1])
+        elif k == 'finalize':
+          gin.finalize()
+          st['locked'] = True
+        elif k == 'clear':
+          gin.clear_config()
+          st['locked'] = False
+          if case.get('dyn'):
+            # clear_config forgets the imports as well: record them again while nothing is locked.  (An import statement is
+            # neither a binding nor a registration: parsed on a locked config it is accepted and shown by config_str.  The
+            # header is kept recorded throughout, so that the texts used for dynamic registration add no import.)
+            gin.parse_config(MREG_HEADER)
+        elif k == 'bind':
+          if op[3:] == ['parse']:
+            gin.parse_config('%s = %d\n' % (op[1], op[2]))
+          else:
+            gin.bind_parameter(op[1], op[2])
+        elif k == 'raise':
+          raise KeyError('boom')
+        elif k in ('unlock', 'interactive'):
+          saved = st['locked']
+          try:
+            with (gin.unlock_config() if k == 'unlock' else gin.config.interactive_mode()):
+              if k == 'unlock':
+                st['locked'] = False
+              for i, o in enumerate(op[1]):
+                step(o, path + [i])
+          finally:
+            if k == 'unlock':
+              st['locked'] = saved
+      except Exception as e:  # pylint: disable=broad-except
+        exc = type(e).__name__
+        raise
+      finally:
+        events.append([path, k, exc, st['locked']])
+        if bool(gin.config_is_locked()) != st['locked']:
+          flag_fails.append((path, k, st['locked'], bool(gin.config_is_locked())))
+
+    for i, op in enumerate(case['ops']):
+      was_locked = st['locked']
+      try:
+        step(op, [i])
+      except Exception:  # pylint: disable=broad-except
+        pass
+      else:
+        if op[0] == 'bind' and was_locked:
+          flag_fails.append(([i], 'bind accepted', True, bool(gin.config_is_locked())))
+    final = snapshot()
+    final['locked'] = bool(gin.config_is_locked())
+    # what can be bound afterwards (on an emptied, unlocked configuration), and what the callables then receive
+    gin.clear_config()
+    bindable = []
+    for key in MREG_BIND_KEYS:
+      try:
+        gin.bind_parameter(key, 7)
+        bindable.append([key, True])
+      except Exception as e:  # pylint: disable=broad-except
+        bindable.append([key, type(e).__name__])
+    final['bindable'] = bindable
+    final['calls_after'] = probe()
+    return events, attempts, flag_fails, final
+
+  @staticmethod
+  def diff(a, b):
+    """first differing entry of two observations (lists of rows / strings)"""
+    if isinstance(a, list) and isinstance(b, list) and len(a) == len(b):
+      for x, y in zip(a, b):
+        if x != y:
+          return '%r instead of %r' % (x, y)
+    return '%r instead of %r' % (a, b)
+
+  def impl(self, case):
+    events, attempts, flag_fails, final = self.run(case, erase=False)
+    fails = []
+    for a in attempts:
+      if a['exc'] is None or a['changed'] or not a['flag_after']:
+        what = '; '.join('%s: %s' % (key, self.diff(a['after'][key], a['before'][key])) for key in a['changed'][:2])
+        fails.append(('locked-config-mutated', 'op %d%s: registration %r attempted after finalize (no clear_config, outside any '
+                      'unlock_config block): outcome %s, locked after=%r, observation %s'
+                      % (a['at'][0], ' (nested %r)' % a['at'][1:] if a['at'][1:] else '', a['op'],
+                         a['exc'] or 'accepted', a['flag_after'], ('CHANGED -- ' + what) if a['changed'] else 'unchanged')))
+    for path, k, want, got in flag_fails[:1]:
+      fails.append(('lock-flag', 'after op %r (%s) the text says locked=%r, config_is_locked()=%r' % (path, k, want, got)))
+    if attempts:
+      events2, _, _, final2 = self.run(case, erase=True)
+      if events != events2:
+        d = [(x, y) for x, y in zip(events, events2) if x != y] or [(events, events2)]
+        fails.append(('locked-registration-observable', 'leaving out the registrations attempted on the locked config changes '
+                      'the outcome of another operation ([path, op, exception, locked]): with them %r, without them %r' % d[0]))
+      for key in final:
+        if final[key] != final2[key]:
+          fails.append(('locked-registration-observable', 'leaving out the registrations attempted on the locked config '
+                        'changes %s: %s' % (key, self.diff(final[key], final2[key]))))
+    nontrivial = any(a['nontrivial'] for a in attempts)
+    obs = [[e[1], e[2], e[3]] for e in events] + [[a['op'], a['exc']] for a in attempts] + [final['config_str']]
+    tags = ['%s:%s' % (e[1], 'err' if e[2] else 'ok') for e in events] + \
+           ['locked-reg:%s' % ('err' if a['exc'] else 'ok') for a in attempts]
+    return {'obs': obs, 'fails': fails[:3], 'nontrivial': nontrivial, 'tags': tags}
+
+
+ENGINES = [LockEngine(), ReRegEngine(), MethodRegEngine()]
